@@ -152,6 +152,8 @@ func clientScenario(rng *rand.Rand) scenario {
 	}
 	peerDone := make(chan []string, 1)
 	replied := make(chan map[int]bool, 1)
+	release := make(chan struct{})
+	defer close(release)
 	go func() {
 		conn, err := ln.Accept()
 		if err != nil {
@@ -201,7 +203,12 @@ func clientScenario(rng *rand.Rand) scenario {
 				evs = append(evs, "e") // a request will exceed its deadline
 			}
 			time.Sleep(7 * time.Second)
+			// the peer goes away only after the scenario has been evaluated: whether the client notices the
+			// closed connection before or after `notified` is read must not be a race
+			peerDone <- evs
+			<-release
 			conn.Close()
+			return
 		case "alive":
 			time.Sleep(300 * time.Millisecond)
 			conn.Close() // the client sees EOF: one transport error with nothing in flight
